@@ -316,6 +316,24 @@ def modelSess (sopt fu wrote : Bool) : (Bool × Bool × Bool × Nat) × (Bool ×
     without get_for_update, with and without a flushed modification -/
 theorem C20_bridge_session : sessRows.length = 8 ∧ ∀ p ∈ sessRows, modelSess p.1.1 p.1.2.1 p.1.2.2 = p.2 := by decide
 
+/-- the INTENDED meaning of the db_session options: the transaction starts at once for immediate / ddl / serializable /
+    non-optimistic sessions; optimistic checks are on unless `optimistic=False` or `serializable=True` — in particular
+    `immediate=True` and `ddl=True` do NOT switch them off -/
+def declaredSession (imm ddl ser opt : Bool) : Bool × Bool := (imm || ddl || ser || !opt, opt && !ser)
+
+/-- how the tie configures the model for a session opened with these options -/
+def cfgOfOptions (imm ddl ser opt : Bool) : Cfg :=
+  { attrs := [0], lazy := fun _ => false, volatile := fun _ => false, attrOpt := fun _ => true,
+    sessOpt := fun _ => opt && !ser, sessImm := fun _ => imm || ddl }
+
+/-- the real `DBSessionContextManager.__init__` (probed for all 16 option combinations, decorator and context-manager form)
+    computes the declared flags, and the model's fresh session starts with exactly these: `cache.immediate` and the
+    optimistic switch used by `critCols` -/
+theorem C20_bridge_session_options : optRows.length = 16 ∧
+    ∀ p ∈ optRows, declaredSession p.1.1 p.1.2.1 p.1.2.2.1 p.1.2.2.2 = p.2
+      ∧ ((Sess.fresh (cfgOfOptions p.1.1 p.1.2.1 p.1.2.2.1 p.1.2.2.2) 0).immediate,
+         (cfgOfOptions p.1.1 p.1.2.1 p.1.2.2.1 p.1.2.2.2).sessOpt 0) = p.2 := by decide
+
 end Bridge
 
 /-! ### the hypotheses are satisfiable, the conclusions are not vacuous, the exclusions are necessary (concrete schedules) -/
@@ -384,6 +402,16 @@ example : (step cfgTab (after cfgTab ones [(1, .select 0 1 false), (0, .get 1 fa
 example : (step cfgTab (after cfgTab ones [(1, .select 0 1 true), (0, .get 1 false), (0, .write 1 0 50)]) 0 .flush).2.res = .blocked
     ∧ (step cfgTab (after cfgTab ones [(1, .select 0 1 true), (1, .commit), (0, .get 1 false), (0, .write 1 0 50), (0, .close),
         (0, .close), (1, .write 1 1 61)]) 1 .close).2.res = .optimisticCheckError := by decide
+
+-- db_session(immediate=True) keeps the optimistic checks: read, commit() inside the session, a concurrent update, then a write
+-- from the cached object is refused; with optimistic=False the same history is applied unchecked
+def cfgImm : Cfg := { cfgAll with sessImm := fun s => s == 1 }
+def cfgNonOpt : Cfg := { cfgAll with sessOpt := fun s => s != 1 }
+def immHistory : List (Sid × Action) :=
+  [(1, .get 1 false), (1, .read 1 0), (1, .commit), (0, .get 1 false), (0, .write 1 0 50), (0, .close), (0, .close), (1, .write 1 1 61)]
+example : ((after cfgImm ones [(1, .get 1 false)]).sess 1).inTxn = true
+    ∧ (step cfgImm (after cfgImm ones immHistory) 1 .close).2.res = .optimisticCheckError
+    ∧ (step cfgNonOpt (after cfgNonOpt ones immHistory) 1 .close).2.upd = some 1 := by decide
 
 -- a session with two transactions: what it read in the first is still checked by the UPDATE of the second
 example : (step cfgAll (after cfgAll ones [(1, .get 1 false), (1, .read 1 0), (1, .write 1 1 61), (1, .commit), (1, .commit),
